@@ -38,6 +38,9 @@ type Case struct {
 	NEntries int      `json:"nentries,omitempty"`
 	Prefixes []string `json:"prefixes,omitempty"`
 	UTF8     bool     `json:"utf8,omitempty"`
+	// kind "sequence": the files are encoded and decoded one after the other by the same goroutine, three rounds (a codec
+	// that keeps a buffer, a pool or a cursor between calls must still write each file as if it were the first)
+	Seq []Case `json:"sequence,omitempty"`
 }
 
 var tsAlpha = []*timestamppb.Timestamp{nil, {Seconds: 0, Nanos: 0}, {Seconds: 1, Nanos: 1}, {Seconds: -1, Nanos: 999_999_999}, {Seconds: 1 << 40}}
@@ -252,6 +255,20 @@ func Eval(cs Case) (*core.Fail, bool) {
 		return evalExecout(cs)
 	case "store":
 		return evalStore(cs)
+	case "sequence":
+		for round := 0; round < 3; round++ {
+			for i, sub := range cs.Seq {
+				if sub.Kind == "sequence" {
+					return core.Failf("harness:kind", "nested sequence"), false
+				}
+				if f, _ := Eval(sub); f != nil {
+					f.Key = "after-other-files:" + f.Key
+					f.What = fmt.Sprintf("file %d of the sequence (round %d; every file of the sequence passes when it is the first call): %s", i+1, round+1, f.What)
+					return f, true
+				}
+			}
+		}
+		return nil, len(cs.Seq) >= 2
 	}
 	return core.Failf("harness:kind", "unknown kind %q", cs.Kind), false
 }
@@ -358,6 +375,34 @@ func Run(ctx *core.Ctx) int {
 			counts["store"]++
 			emit(Case{Kind: "store", NEntries: n, Prefixes: []string{"a", "b"}, UTF8: true})
 		}
+		// sequences of files through the same codecs: every ordered pair and triple of shapes of different sizes
+		var shapes [2][]Case
+		for _, n := range []int{1, 2, 3, 7, 50, 100} {
+			shapes[0] = append(shapes[0], Case{Kind: "execout", NItems: n})
+		}
+		shapes[0] = append(shapes[0], Case{Kind: "execout"}, Case{Kind: "execout", Items: []Item{all[len(all)-2]}})
+		for _, n := range []int{1, 2, 3, 7, 50} {
+			for _, pl := range [][]string{nil, {"a", "é"}} {
+				shapes[1] = append(shapes[1], Case{Kind: "store", NEntries: n, Prefixes: pl, UTF8: true})
+			}
+		}
+		shapes[1] = append(shapes[1], Case{Kind: "store", UTF8: true}, Case{Kind: "store", Entries: []KV{{utf8Keys[4], vals[6]}}, Prefixes: []string{strings.Repeat("p", 200)}, UTF8: true})
+		for _, sh := range shapes {
+			for _, a := range sh {
+				for _, b := range sh {
+					counts["sequence"]++
+					if !emit(Case{Kind: "sequence", Seq: []Case{a, b}}) {
+						return
+					}
+					for _, c := range sh {
+						counts["sequence"]++
+						if !emit(Case{Kind: "sequence", Seq: []Case{a, b, c}}) {
+							return
+						}
+					}
+				}
+			}
+		}
 	}, Eval)
 	ctx.Sample(Case{Kind: "execout", Items: []Item{all[5], red[7]}})
 	ctx.Sample(Case{Kind: "store", Entries: []KV{{utf8Keys[1], vals[0]}, {utf8Keys[3], vals[5]}}, Prefixes: []string{"a", "é"}, UTF8: true})
@@ -365,7 +410,7 @@ func Run(ctx *core.Ctx) int {
 	ctx.Cov["distinct_nontrivial"] = st.NonTrivial
 	ctx.Cov["exhaustive"] = true
 	ctx.Cov["by_kind"] = counts
-	ctx.Cov["rule"] = "exec-out: every single item over block number {0,1,127,128,2^32,2^64-1} x id {'', a, é, 200 bytes} x timestamp {absent,0,(1,1),(-1,999999999),2^40} x cursor {'',c} x payload length {0,1,300,20000}; every pair (full alphabet x reduced alphabet of 24, distinct ids), every triple over the reduced alphabet; 0/1/2/1000/5000 generated items. Oracles: MarshalFast bytes decode with proto.Unmarshal as Array to the same items; proto.Marshal(Array) decodes with UnmarshalFast to the same map; fast round trip. Store data: every map of <=3 entries over 6 UTF-8 keys (lengths up to 16384) or 4 binary keys x 7 values (empty, 0x00, 0xff, 127/128/16384 bytes) x 5 deleted-prefix lists; VTproto, Proto, ProtoingFast, Binary each read back what they wrote (Binary: kv only); VTproto/ProtoingFast bytes decode with proto.Unmarshal; proto.Marshal bytes decode with VTproto.Unmarshal whose reported size == sum(len k + len v). Non-trivial: >=2 items/entries or a multi-byte varint length."
+	ctx.Cov["rule"] = "exec-out: every single item over block number {0,1,127,128,2^32,2^64-1} x id {'', a, é, 200 bytes} x timestamp {absent,0,(1,1),(-1,999999999),2^40} x cursor {'',c} x payload length {0,1,300,20000}; every pair (full alphabet x reduced alphabet of 24, distinct ids), every triple over the reduced alphabet; 0/1/2/1000/5000 generated items. Oracles: MarshalFast bytes decode with proto.Unmarshal as Array to the same items; proto.Marshal(Array) decodes with UnmarshalFast to the same map; fast round trip. Store data: every map of <=3 entries over 6 UTF-8 keys (lengths up to 16384) or 4 binary keys x 7 values (empty, 0x00, 0xff, 127/128/16384 bytes) x 5 deleted-prefix lists; VTproto, Proto, ProtoingFast, Binary each read back what they wrote (Binary: kv only); VTproto/ProtoingFast bytes decode with proto.Unmarshal; proto.Marshal bytes decode with VTproto.Unmarshal whose reported size == sum(len k + len v). Sequences: every ordered pair and triple over 8 exec-out shapes (0..100 items) and over 12 store shapes (0..50 entries x prefix lists), encoded and decoded one after the other by one goroutine, three rounds, each file judged by the oracles above (codec state kept between calls). Non-trivial: >=2 items/entries or a multi-byte varint length."
 	ctx.Assume = []string{"non-UTF-8 keys are only used for self round-trips of VTproto and Binary: the schema field is a proto3 string and the standard library rejects invalid UTF-8 by design"}
 	return ctx.Finish(core.JSONRecheck(ctx.Prop, Eval))
 }
